@@ -3,7 +3,7 @@
 //!
 //! case (key=value tokens, any order before the data sections):
 //!   scene door=<r|b|B|c> tgt=<fb|cb> dims=<W>x<H> vp=<l>,<t>,<r>,<b> cull=<n|f|b> sort=<n|f|b>
-//!         test=<n|l|g|e> cw=<0|1> dw=<0|1> sh=<0|1> k=<1|2> sel=<0|1>
+//!         test=<n|l|g|e> cw=<0|1> dw=<0|1> sh=<0|1> k=<1|2|3|4> sel=<0..k-1>   (k: 1 f32, 2 Vec2, 3 (Vec2, f32), 4 Color4f)
 //!         proj=<none | persp,<focal>,<near>,<far> | ortho,<l>,<b>,<n>,<r>,<t>,<f>> zinit=<f32 bits>
 //!         v <nv> <nv*(4+k) words>  t <nt> <nt*3 idx>  h <ncalls> { <sort> <m> <m idx> }*
 //! output:
@@ -16,6 +16,7 @@ use re::geom::{vertex, Tri, Vertex};
 use re::math::mat::{orthographic, perspective, viewport, Mat4x4, RealToProj, RealToReal};
 use re::math::point::{pt2, pt3, Point3};
 use re::math::vec::ProjVec4;
+use re::math::color::Color4f;
 use re::math::{rgba, vec2, Vec2};
 use re::render::cam::Camera;
 use re::render::ctx::{DepthSort, FaceCull};
@@ -166,6 +167,8 @@ fn make_ctx(s: &Scene, sort: char) -> Context {
 
 type V1 = Vertex<ProjVec4, f32>;
 type V2 = Vertex<ProjVec4, Vec2>;
+type V3 = Vertex<ProjVec4, (Vec2, f32)>;
+type V4 = Vertex<ProjVec4, Color4f>;
 
 /// Colour whose ARGB word is exactly the bit pattern of `x`.
 fn smuggle(x: f32) -> re::math::Color4 {
@@ -287,7 +290,7 @@ pub fn run_scene(s: &Scene, door: char) -> Output {
                 fs,
                 V1
             );
-        } else {
+        } else if s.k == 2 {
             let fs = |f: Frag<Vec2>| {
                 calls.set(calls.get() + 1);
                 if discard(f.pos.x(), f.pos.y()) { None } else { Some(smuggle(f.var[sel])) }
@@ -296,6 +299,29 @@ pub fn run_scene(s: &Scene, door: char) -> Output {
                 cv.iter().zip(&s.verts).map(|(p, v)| vertex((*p).into(), vec2(v[4], v[5]))).collect(),
                 fs,
                 V2
+            );
+        } else if s.k == 3 {
+            // a TUPLE varying (Vec2, f32): the pair impls of Lerp / Vary / ZDiv
+            let fs = |f: Frag<(Vec2, f32)>| {
+                calls.set(calls.get() + 1);
+                let val = if sel < 2 { f.var.0[sel] } else { f.var.1 };
+                if discard(f.pos.x(), f.pos.y()) { None } else { Some(smuggle(val)) }
+            };
+            go!(
+                cv.iter().zip(&s.verts).map(|(p, v)| vertex((*p).into(), (vec2(v[4], v[5]), v[6]))).collect(),
+                fs,
+                V3
+            );
+        } else {
+            // a COLOUR varying (Color4f): the colour impls, alpha included
+            let fs = |f: Frag<Color4f>| {
+                calls.set(calls.get() + 1);
+                if discard(f.pos.x(), f.pos.y()) { None } else { Some(smuggle(f.var.0[sel])) }
+            };
+            go!(
+                cv.iter().zip(&s.verts).map(|(p, v)| vertex((*p).into(), rgba(v[4], v[5], v[6], v[7]))).collect(),
+                fs,
+                V4
             );
         }
         let st = ctx.stats.borrow();
@@ -409,7 +435,7 @@ pub fn header(rng: &mut Rng, door: char, tgt: &str, flags: &str, k: usize) -> (S
         (l, t, l + 1 + rng.below((w - l) as u64) as u32, t + 1 + rng.below((h - t) as u64) as u32)
     };
     (
-        format!("scene door={door} tgt={tgt} dims={w}x{h} vp={l},{t},{r},{b} {flags} k={k} sel={}", if k == 2 { rng.below(2) } else { 0 }),
+        format!("scene door={door} tgt={tgt} dims={w}x{h} vp={l},{t},{r},{b} {flags} k={k} sel={}", if k >= 2 { rng.below(k as u64) as usize } else { 0 }),
         w,
         h,
     )
